@@ -192,32 +192,69 @@ func TestVerif_C15_Store(t *testing.T) {
 		}
 		levels := []proto.ConsistencyLevel{proto.ConsistencyLevel_NONE, proto.ConsistencyLevel_WEAK, proto.ConsistencyLevel_STRONG}
 		for i := 0; i < nreq; i++ {
-			// build the request
+			// build the request: 1-2 statements (SQL text + optional parameter list), each text 1-3 SQL statements
 			ntexts := 1 + g.rng.IntN(2)
 			var texts []string
+			var stmts []*proto.Statement
 			critical, vector := "", ""
 			for k := 0; k < ntexts; k++ {
 				n := 1
-				if g.pct(40) {
+				if g.pct(45) {
 					n = 2 + g.rng.IntN(2)
 				}
 				var parts []string
+				style := g.of("none", "none", "positional", "named") // placeholder style of the fillers in this text
+				npos, named, bait := 0, false, false
+				thisCritical, thisVector := "", ""
 				for j := 0; j < n; j++ {
-					if g.pct(55) {
+					switch {
+					case g.pct(50):
 						txt, name, vec := g.pragma()
 						if j > 0 {
 							vec = "later-statement"
 							txt = strings.TrimPrefix(txt, "\ufeff")
 						}
-						parts = append(parts, txt)
-						if critical == "" {
-							critical, vector = name, vec
+						if bait {
+							vec = "lexical-bait"
 						}
-					} else {
+						parts = append(parts, txt)
+						if thisCritical == "" {
+							thisCritical, thisVector = name, vec
+						}
+					case style == "positional" && g.pct(60):
+						parts = append(parts, g.of("INSERT INTO t(v) VALUES (?)", "SELECT ?", "UPDATE t SET v = ? WHERE id = 1", "SELECT count(*) FROM t WHERE v <> ?"))
+						npos++
+					case style == "named" && g.pct(60):
+						parts = append(parts, g.of("INSERT INTO t(v) VALUES (:p)", "SELECT :p", "UPDATE t SET v = :p WHERE id = 1"))
+						named = true
+					case g.pct(35):
+						parts = append(parts, c15sBait[g.rng.IntN(len(c15sBait))])
+						bait = true
+					default:
 						parts = append(parts, c15sFiller[g.rng.IntN(len(c15sFiller))])
 					}
 				}
-				texts = append(texts, strings.Join(parts, g.of(";", "; ", ";\n")))
+				text := strings.Join(parts, g.of(";", "; ", ";\n")) + g.of("", "", ";", "; -- c", "; --'", "; /* ' */", "; SELECT ''", ";--\"", "; SELECT '")
+				st := &proto.Statement{Sql: text}
+				// parameters: what the placeholders need, sometimes one surplus value; sometimes a surplus
+				// value on a text without any placeholder (the driver ignores surplus positional values)
+				for i := 0; i < npos; i++ {
+					st.Parameters = append(st.Parameters, &proto.Parameter{Value: &proto.Parameter_S{S: fmt.Sprintf("p%d", i)}})
+				}
+				if named {
+					st.Parameters = append(st.Parameters, &proto.Parameter{Name: "p", Value: &proto.Parameter_S{S: "np"}})
+				}
+				if (npos > 0 && g.pct(25)) || (npos == 0 && !named && g.pct(30)) {
+					st.Parameters = append(st.Parameters, &proto.Parameter{Value: &proto.Parameter_I{I: 1}})
+				}
+				if thisCritical != "" && len(st.Parameters) > 0 {
+					thisVector = "with-parameters"
+				}
+				if critical == "" && thisCritical != "" {
+					critical, vector = thisCritical, thisVector
+				}
+				texts = append(texts, fmt.Sprintf("%s {%d params}", text, len(st.Parameters)))
+				stmts = append(stmts, st)
 			}
 			tx := g.pct(20)
 			endpoint := g.of("execute", "query", "request")
@@ -235,13 +272,11 @@ func TestVerif_C15_Store(t *testing.T) {
 			var rerr error
 			switch endpoint {
 			case "execute":
-				_, _, rerr = s.Execute(ctx, executeRequestFromStrings(texts, false, tx))
+				_, _, rerr = s.Execute(ctx, &proto.ExecuteRequest{Request: &proto.Request{Statements: stmts, Transaction: tx}})
 			case "query":
-				qr := queryRequestFromStrings(texts, false, tx, false)
-				qr.Level = lvl
-				_, _, _, rerr = s.Query(ctx, qr)
+				_, _, _, rerr = s.Query(ctx, &proto.QueryRequest{Request: &proto.Request{Statements: stmts, Transaction: tx}, Level: lvl})
 			case "request":
-				_, _, _, rerr = s.Request(ctx, executeQueryRequestFromStrings(texts, lvl, false, tx, false))
+				_, _, _, rerr = s.Request(ctx, &proto.ExecuteQueryRequest{Request: &proto.Request{Statements: stmts, Transaction: tx}, Level: lvl})
 			}
 			if rerr != nil && strings.Contains(rerr.Error(), "disallowed pragma") {
 				rec.Label("guard:rejected")
@@ -277,3 +312,8 @@ func TestVerif_C15_Store(t *testing.T) {
 		}
 	})
 }
+
+// lexically tricky statements (see the db unit): SQLite has no backslash escapes, quotes double inside
+// their own kind, comment markers inside strings and quotes inside comments mean nothing.
+var c15sBait = []string{`SELECT '\'`, `SELECT 'a\'`, `SELECT '\\'`, `INSERT INTO t(v) VALUES ('c:\dir\')`, `SELECT 'it''s'`, `SELECT ''''`, `SELECT '--'`, `SELECT '/*'`,
+	`SELECT 1 AS "a""b"`, `SELECT 1 AS "q'r"`, `SELECT 1 AS [a'b]`, `SELECT 1 AS [\]`, "SELECT 1 AS `q'r`", `SELECT 1 /* ' */`, "SELECT 1 -- '\n", `SELECT ';'`}
